@@ -498,6 +498,86 @@ theorem specRun_inv (reg : Registry) : ∀ (items : List Item) (t t' : Spec) (e 
 example : (specRun C06.exReg {} C06.exDoc).1.log = (prun C06.exReg {} C06.exDoc).1.log := by decide +kernel
 example : (specRun C06.exReg {} C06.exDoc).1.delivered = [(1, "ta"), (3, "ta")] := by decide +kernel
 
+/-! ### feeding on after a refused event -/
+
+/-- a step that raises leaves everything but the tree as it was -/
+theorem pstep_error_frame (reg : Registry) (s : PState) (it : Item) (e : PErr) (h : (pstep reg s it).2 = some e) :
+    (pstep reg s it).1.log = s.log ∧ (pstep reg s it).1.ont = s.ont ∧ (pstep reg s it).1.nEvents = s.nEvents ∧
+    (pstep reg s it).1.typeCount = s.typeCount ∧ (pstep reg s it).1.patMap = s.patMap := by
+  cases it with
+  | foreign idx => simp [pstep] at h
+  | ont v types sources =>
+    cases v with
+    | ok => simp only [pstep] at h; split at h <;> cases h
+    | semFail => exact ⟨rfl, rfl, rfl, rfl, rfl⟩
+    | schemaSemFail => exact ⟨rfl, rfl, rfl, rfl, rfl⟩
+    | schemaSemOk => exact ⟨rfl, rfl, rfl, rfl, rfl⟩
+  | event idx type source gateOk =>
+    simp only [pstep] at h ⊢
+    cases hont : s.ont with
+    | none => simp [hont]
+    | some o =>
+      obtain ⟨ts, ss⟩ := o
+      simp only [hont] at h ⊢
+      split
+      · exact ⟨rfl, hont.symm ▸ rfl, rfl, rfl, rfl⟩
+      · split
+        · exact ⟨rfl, hont.symm ▸ rfl, rfl, rfl, rfl⟩
+        · split
+          · exact ⟨rfl, hont.symm ▸ rfl, rfl, rfl, rfl⟩
+          · rename_i h1 h2 h3
+            simp only [h1, h2, h3, if_false, Bool.false_eq_true] at h
+            split at h <;> cases h
+
+/-- the specification of a parser that is fed on after refused events: they are skipped -/
+def specRunResilient (reg : Registry) (t : Spec) : List Item → Spec × List PErr
+  | [] => (t, [])
+  | it :: rest =>
+    match specStep reg t it with
+    | (t', none) => specRunResilient reg t' rest
+    | (t', some .eventValidation) =>
+      let r := specRunResilient reg t' rest
+      (r.1, .eventValidation :: r.2)
+    | (t', some e) => (t', [e])
+
+/-- **C14 for a parser that is fed on after refused events**: the refused events raise and reach no
+handler; every other event is dispatched by the same rule as if they had not been there; the counters
+count the delivered events -/
+theorem resilient_dispatch_exact (reg : Registry) : ∀ (items : List Item) (s : PState) (t : Spec), Sim reg s t →
+    (prunResilient reg s items).2 = (specRunResilient reg t items).2 ∧
+    (((prunResilient reg s items).2.all (· == .eventValidation)) = true →
+      Sim reg (prunResilient reg s items).1 (specRunResilient reg t items).1)
+  | [], s, t, h => ⟨rfl, fun _ => h⟩
+  | it :: rest, s, t, hR => by
+    simp only [prunResilient, specRunResilient]
+    cases hp : pstep reg s it with
+    | mk s1 e1 =>
+      cases hq : specStep reg t it with
+      | mk t1 e2 =>
+        have st := step_sim reg s s1 t t1 it e1 e2 hR hp hq
+        cases e1 with
+        | none =>
+          have : e2 = none := st.1.symm
+          subst this
+          exact resilient_dispatch_exact reg rest s1 t1 (st.2.1 rfl)
+        | some err =>
+          have he : e2 = some err := st.1.symm
+          subst he
+          obtain ⟨rfl, _⟩ := st.2.2 (by simp)
+          have fr := pstep_error_frame reg s it err (by rw [hp])
+          rw [hp] at fr
+          have hS : Sim reg s1 t1 :=
+            ⟨fr.2.1 ▸ hR.ont, fr.1 ▸ hR.log, fr.2.2.1 ▸ hR.nEvents, fun ty => fr.2.2.2.1 ▸ hR.counts ty,
+              fun ts ss h => by rw [fr.2.2.2.2]; exact hR.patMap ts ss (fr.2.1 ▸ h)⟩
+          cases err with
+          | eventValidation =>
+            have ih := resilient_dispatch_exact reg rest s1 t1 hS
+            simp only
+            refine ⟨by rw [ih.1], fun hall => ih.2 ?_⟩
+            simpa using hall
+          | validation => exact ⟨rfl, fun hall => by simp at hall⟩
+          | ontologyValidation => exact ⟨rfl, fun hall => by simp at hall⟩
+
 /-! ### one parser, several documents
 
 `parse()` may be called again on the same parser: `_init()` forgets the tree, the event counter and
